@@ -236,6 +236,9 @@ func c02worker(arg string) {
 			st.Skipped++
 			continue
 		}
+		if strings.HasPrefix(init.name, "huge-") && (len(p) != 2 || len(p[0]) != 1 || len(p[1]) != 1) {
+			continue // very large start states: the programs of two single calls
+		}
 		if len(t.atMostOnce) > 0 {
 			cnt := map[string]int{}
 			twice := false
